@@ -3,7 +3,8 @@
 spec -> impl: MC_Attr.tla (TLC enumerates attribute value literals x declared type x default kind x
               written x ATTLIST layout, checks the theorems of AttrNorm.tla and emits one REPLAY case per
               combination with the document text rendered by AttrSurface.Render) -> harness
-              `doc-attr-replay` parses every text in both views and records what the public DOM API reports.
+              `doc-attr-replay` parses every text in both views and records what the public DOM API
+              (and XPath count(@*) / string(@name)) reports.
 impl -> spec: harness `doc-attr-record` (seeded random abstract documents: longer literals, wider alphabet,
               nested entities, several elements / ATTLISTs / attributes).
 judge:        Trace_Attr.tla re-computes the effective attributes of every event from the abstract case with
@@ -16,7 +17,7 @@ import os
 
 import common as C
 
-FAST_SAMPLE = 4000      # fast-path cases that are nevertheless judged by TLC (never vacuous)
+FAST_SAMPLE = 3000      # fast-path cases that are nevertheless judged by TLC (never vacuous)
 
 
 def _cfg(path, open_names):
@@ -141,7 +142,7 @@ def run(prop, tier):
         os.unlink(replay)
         # 3. impl -> spec: seeded random documents
         rnd = os.path.join(wd, "attr.rnd")
-        nrnd = 4000 if tier == "quick" else 30000
+        nrnd = 3000 if tier == "quick" else 30000
         C.run_harness(["doc-attr-record", "--seed", str(C.seed()), "--count", str(nrnd), "--out", rnd])
         # 4. one judge: Trace_Attr.tla
         trace = os.path.join(wd, "attr.trace")
@@ -170,8 +171,9 @@ def run(prop, tier):
                     out.sample({"text": "".join(chr(c) for c in e["text"]), "views": e["views"][:1]}, limit=5)
         out.rule = ("every REPLAY case of MC_Attr (literal x declared type x default kind x written x ATTLIST "
                     "layout) is parsed in the raw and the text-expanded view and Attr::name/value/specified of "
-                    "every entry of attributes(), attributes().length() and Element::get_attribute of every "
-                    "written/declared name are compared with AttrNorm.Effective; a case is non-trivial if its "
+                    "every entry of attributes(), attributes().length(), Element::get_attribute of every "
+                    "written/declared name and, on the text-expanded document, xml_xpath::query count(@*) and "
+                    "string(@name) are compared with AttrNorm.Effective; a case is non-trivial if its "
                     "literal contains a reference or white space or the attribute is not written (defaulting); "
                     "every random document counts as non-trivial (distinct texts)")
         bounds = {"quick": (3, 2), "thorough": (4, 3)}[tier]
